@@ -184,6 +184,20 @@ structure Sess where
   pos : Nat := 0
   out : Array String := #[]
 
+/-- the client variants `sqlite3.NewBuilder` can build (options `Debug()`, `Trace()`) -/
+def clientVariants : List String := ["plain", "debug", "trace", "debug+trace"]
+
+/-- `grow:<k>` (k overlapping `Client.Read` closures, k ≤ 32) and `client:<variant>` (the same database behind
+    another client variant): tokens between transactions that change nothing — every variant of the client IS
+    the index, on every connection of its pool.  `none` = not such a token. -/
+def controlTok (tok : String) : Option String :=
+  match tok.splitOn ":" with
+  | ["grow", k] => match k.toNat? with
+    | some n => if n ≤ 32 && toString n == k then some "ok" else some "bad"
+    | none => some "bad"
+  | ["client", v] => if clientVariants.contains v then some "ok" else some "bad"
+  | _ => none
+
 /-- One token of a session.  `onCall` lets the judge look at every executed call. -/
 def stepTok (O : DbOps) (full : Bool) (s : Sess) (tok : String) : Sess :=
   let emit (w : String) (s : Sess) : Sess := { s with out := s.out.push w, pos := s.pos + 1 }
@@ -193,7 +207,9 @@ def stepTok (O : DbOps) (full : Bool) (s : Sess) (tok : String) : Sess :=
     else if tok == "W[" then emit "." { s with tx := .inside true s.db false }
     else if tok == "dump" then emit (dump full s.db) s
     else if tok == "reopen" then emit "ok" s
-    else emit "bad" s
+    else match controlTok tok with
+      | some w => emit w s
+      | none => emit "bad" s
   | .inside write work failed =>
     if tok == "]c" || tok == "]a" then
       if !write then emit "end" { s with tx := .outside }
